@@ -129,7 +129,7 @@ def pieces(fn, ordinal=0):
     if pre and isinstance(pre[0], ast.Expr) and isinstance(pre[0].value, ast.Constant) and isinstance(pre[0].value.value, str):
         pre = pre[1:]
     code = fn.__code__
-    fn_locals = list(code.co_varnames) + list(code.co_cellvars)
+    fn_locals = list(dict.fromkeys(list(code.co_varnames) + list(code.co_cellvars)))
     used = set(_names(fdef.body, ast.Load)) | set(_names(fdef.body, ast.Store))
     local_names = [n for n in fn_locals if n in used or n in code.co_varnames[: code.co_argcount + code.co_kwonlyargcount]]
     filename = "<%s loop %d of %s>" % ("piece", ordinal, fn.__qualname__)
